@@ -31,7 +31,18 @@ void vf_rng_stream(vf_rng *r, uint64_t purpose) {
                        vf_mix(purpose * 0x51ED270B1ULL + 99));
 }
 static inline uint64_t rotl(uint64_t x, int k) { return (x << k) | (x >> (64 - k)); }
+/* tape mode (coverage-guided phases): while a tape is set, draws are taken from its bytes, so that a mutation engine
+ * controls every choice the case generator makes; once the tape is used up the generator continues from r's own state */
+static const uint8_t *tape_p;
+static size_t tape_n, tape_pos;
+void vf_tape_set(const uint8_t *p, size_t n) { tape_p = p; tape_n = n; tape_pos = 0; }
 uint64_t vf_u64(vf_rng *r) {
+    if (tape_p && tape_pos + 8 <= tape_n) {
+        uint64_t v;
+        memcpy(&v, tape_p + tape_pos, 8);
+        tape_pos += 8;
+        return v;
+    }
     uint64_t *s = r->s;
     uint64_t result = rotl(s[1] * 5, 7) * 9;
     uint64_t t = s[1] << 17;
@@ -1254,6 +1265,26 @@ static int merge_keys(int n, char **files) {
     printf("%zu\n", d);
     return 0;
 }
+static const char *g_logpath;
+/* writes the closing events; vf_main calls it, and a phase whose engine ends the process itself (libFuzzer calls exit)
+ * registers it with atexit — it runs once */
+void vf_finish(void) {
+    static int done;
+    if (done) return;
+    done = 1;
+    vf_case("finished");
+    dump_and_close();
+    if (g_logpath && dset) {
+        char kp[4096];
+        snprintf(kp, sizeof kp, "%s.keys", g_logpath);
+        FILE *f = fopen(kp, "wb");
+        if (f) {
+            for (size_t i = 0; i < DCAP; i++)
+                if (dset[i]) fwrite(&dset[i], 8, 1, f);
+            fclose(f);
+        }
+    }
+}
 int vf_main(int argc, char **argv, const char *prop, void (*run)(void),
             void (*replay)(const char *)) {
     const char *logpath = NULL, *rspec = NULL;
@@ -1283,6 +1314,7 @@ int vf_main(int argc, char **argv, const char *prop, void (*run)(void),
         else
             vf_fatal("unknown argument %s", argv[i]);
     }
+    g_logpath = logpath;
     if (logpath) {
         VF.log = fopen(logpath, "w");
         if (!VF.log) vf_fatal("cannot open log %s", logpath);
@@ -1307,17 +1339,6 @@ int vf_main(int argc, char **argv, const char *prop, void (*run)(void),
         replay(rspec);
     } else
         run();
-    vf_case("finished");
-    dump_and_close();
-    if (logpath && dset) {
-        char kp[4096];
-        snprintf(kp, sizeof kp, "%s.keys", logpath);
-        FILE *f = fopen(kp, "wb");
-        if (f) {
-            for (size_t i = 0; i < DCAP; i++)
-                if (dset[i]) fwrite(&dset[i], 8, 1, f);
-            fclose(f);
-        }
-    }
+    vf_finish();
     return VF.nviol ? 1 : 0;
 }
